@@ -256,14 +256,16 @@ Definition one_unsew3 (n : N) (ks : kinds) (ld : N) : prog unit :=
 Definition two_sew3 (n : N) (ks : kinds) (ld rd : N) : prog unit :=
   b1ld <- rdB 1 ld ;;
   b1rd <- rdB 1 rd ;;
-  eid_l <- edge_id3 n ld ;;
-  eid_r <- edge_id3 n rd ;;
   match b1ld =? 0, b1rd =? 0 with
   | true, true =>
+    eid_l <- edge_id3 n ld ;;
+    eid_r <- edge_id3 n rd ;;
     two_link_core ld rd ;;;
     eid_new <- edge_id3 n ld ;;
     merge_attributes ks KEdge eid_new eid_l eid_r
   | true, false =>
+    eid_l <- edge_id3 n ld ;;
+    eid_r <- edge_id3 n rd ;;
     vid_l <- vertex_id3 n ld ;;
     vid_b1r <- vertex_id3 n b1rd ;;
     two_link_core ld rd ;;;
@@ -273,6 +275,8 @@ Definition two_sew3 (n : N) (ks : kinds) (ld rd : N) : prog unit :=
     merge_attributes ks KVertex vid_l_new vid_l vid_b1r ;;;
     merge_attributes ks KEdge eid_new eid_l eid_r
   | false, true =>
+    eid_l <- edge_id3 n ld ;;
+    eid_r <- edge_id3 n rd ;;
     vid_b1l <- vertex_id3 n b1ld ;;
     vid_r <- vertex_id3 n rd ;;
     two_link_core ld rd ;;;
@@ -282,6 +286,8 @@ Definition two_sew3 (n : N) (ks : kinds) (ld rd : N) : prog unit :=
     merge_attributes ks KVertex vid_r_new vid_b1l vid_r ;;;
     merge_attributes ks KEdge eid_new eid_l eid_r
   | false, false =>
+    eid_l <- edge_id3 n ld ;;
+    eid_r <- edge_id3 n rd ;;
     vid_l <- vertex_id3 n ld ;;
     vid_b1r <- vertex_id3 n b1rd ;;
     vid_b1l <- vertex_id3 n b1ld ;;
@@ -306,13 +312,14 @@ Definition two_unsew3 (n : N) (ks : kinds) (ld : N) : prog unit :=
   rd <- rdB 2 ld ;;
   b1ld <- rdB 1 ld ;;
   b1rd <- rdB 1 rd ;;
-  eid_old <- edge_id3 n ld ;;
   match b1ld =? 0, b1rd =? 0 with
   | true, true =>
+    eid_old <- edge_id3 n ld ;;
     two_unlink_core ld ;;;
     eid_newl <- edge_id3 n ld ;; eid_newr <- edge_id3 n rd ;;
     split_attributes ks KEdge eid_newl eid_newr eid_old
   | true, false =>
+    eid_old <- edge_id3 n ld ;;
     vid_l <- vertex_id3 n ld ;;
     two_unlink_core ld ;;;
     eid_newl <- edge_id3 n ld ;; eid_newr <- edge_id3 n rd ;;
@@ -321,6 +328,7 @@ Definition two_unsew3 (n : N) (ks : kinds) (ld : N) : prog unit :=
     vertices_split a b vid_l ;;;
     split_attributes ks KVertex a b vid_l
   | false, true =>
+    eid_old <- edge_id3 n ld ;;
     vid_r <- vertex_id3 n rd ;;
     two_unlink_core ld ;;;
     eid_newl <- edge_id3 n ld ;; eid_newr <- edge_id3 n rd ;;
@@ -329,6 +337,7 @@ Definition two_unsew3 (n : N) (ks : kinds) (ld : N) : prog unit :=
     vertices_split a b vid_r ;;;
     split_attributes ks KVertex a b vid_r
   | false, false =>
+    eid_old <- edge_id3 n ld ;;
     vid_l <- vertex_id3 n ld ;;
     vid_r <- vertex_id3 n rd ;;
     two_unlink_core ld ;;;
